@@ -1,4 +1,4 @@
-import LolHtml.Lemmas.ChunkStep5
+import LolHtml.Lemmas.ChunkParse2
 import LolHtml.Thm.C01
 /-!
 # C02 — chunk-boundary invariance, and the schedule-independence half of C09
@@ -54,29 +54,30 @@ states; a text lexeme may be delivered in two pieces). `SPanic` / the `must`-pan
 hit one of the model's explicit panic branches (a slice out of range, …); those runs are excluded by the
 hypothesis of the top-level statement. -/
 
-variable {κ : Type} {env : Env κ} {inpS inpW : Bytes} {δ : Nat} {K : Nat → κ → κ → Prop}
+variable {κ : Type} {env : Env κ} {inpS inpW : Bytes} {δ : Nat} {K : Nat → κ → κ → Prop} {Loc : κ → Nat → Prop}
 
 /-- **Actions.** One action of either machine maps related machines to related machines, with the
 validity flags transformed by `absAct`; the lexemes / hints handed to the sink correspond; the signals
 are equal (bookmark positions shifted by `δ`). A text debt `d` is repaid by `emit_text`. -/
-theorem C02_action_partial (F : Frame inpS inpW δ) (hops : OpsSim env.ops inpS inpW δ K) (a : ActName) {d : Nat}
+theorem C02_action_partial (F : Frame inpS inpW δ) (hops : OpsSim env.ops inpS inpW δ K Loc) (a : ActName) {d : Nat}
     {ab ab' : Ab} (habs : absAct a ab = some ab') {ms mw : M κ} (h : MRel δ d 0 ab .none ms mw)
-    (hK : K d ms.x.sink mw.x.sink) (hd : d = 0 ∨ a = .emitText ∨ a = .emitTextAndEof)
+    (hK : K d ms.x.sink mw.x.sink) (hloc : 0 < d → Loc ms.x.sink (lexStart ms.r))
+    (hd : d = 0 ∨ a = .emitText ∨ a = .emitTextAndEof)
     (hin : readsInp a = true → (ms.c.nextPos ≤ inpS.length ∨ Closed inpS inpW δ)) :
     ActSim δ K ab' (qRequired a) (act env a inpS ms) (act env a inpW mw) :=
-  act_sim F hops a habs h hK hd hin
+  act_sim F hops a habs h hK hloc hd hin
 
 /-- **Arm bodies** (action list, `if cond`, transition): related results; after a transition the
 machines are related with the entry flags of the target state, otherwise the cursor, state and
 `entered` bit are untouched. -/
-theorem C02_body_partial (F : Frame inpS inpW δ) (hops : OpsSim env.ops inpS inpW δ K) (fs : FlagMap) (st : StateId)
+theorem C02_body_partial (F : Frame inpS inpW δ) (hops : OpsSim env.ops inpS inpW δ K Loc) (fs : FlagMap) (st : StateId)
     (loops : Bool) (b : Body) {d : Nat} {ab : Ab} (hok : bodyOk env.tbl fs st ab loops b = true)
     {ms mw : M κ}
-    (h : MRel δ d 0 ab .none ms mw) (hK : K d ms.x.sink mw.x.sink)
+    (h : MRel δ d 0 ab .none ms mw) (hK : K d ms.x.sink mw.x.sink) (hloc : 0 < d → Loc ms.x.sink (lexStart ms.r))
     (hd : d = 0 ∨ ∃ s, b = .seq s ∧ StartsWithText s.calls)
     (hin : BodyIn inpS inpW δ ms.c.nextPos b) :
     BodySim δ K fs st loops ms.c (runBody env inpS b ms) (runBody env inpW b mw) :=
-  runBody_sim F hops fs st loops b hok h hK hd hin
+  runBody_sim F hops fs st loops b hok h hK hloc hd hin
 
 /-- **Look-ahead horizon** (`ch_sequence_arm_pattern!`): the verdict is the same in both runs, unless the
 split input ends first, in which case the split run needs more input. -/
@@ -144,10 +145,10 @@ def unitOps : SinkOps Unit :=
   { handleTag := fun _ _ _ => ((), .ok .lex), handleNonTag := fun _ _ _ => ((), .ok ())
     startTagHint := fun _ _ _ => ((), .ok .lex), endTagHint := fun _ _ => ((), .ok .lex) }
 
-example (a b : Bytes) (n : Nat) : OpsSim unitOps a b n (fun d _ _ => d = 0) :=
+example (a b : Bytes) (n : Nat) : OpsSim unitOps a b n (fun d _ _ => d = 0) (fun _ _ => True) :=
   { tag := fun _ _ _ _ _ _ => Or.inr ⟨rfl, rfl⟩
     nonTag := fun _ _ _ _ _ _ => Or.inr ⟨rfl, rfl⟩
-    text := fun _ _ _ d _ _ _ hd h0 => by omega
+    text := fun _ _ _ d _ _ _ hd _ h0 => by omega
     textOk := fun _ _ _ _ => Or.inr rfl
     startHint := fun _ _ _ _ _ => ⟨rfl, rfl⟩
     endHint := fun _ _ _ _ => ⟨rfl, rfl⟩ }
@@ -167,8 +168,8 @@ machines —, related machines and sinks, equal total consumed at a common break
 has at most run its enter actions (`stateFn mw0 = stateFn mw`). `eoi = true`: a common break of the two runs
 is reported as `LockOut` (possible only if the inputs end together); `eoi = false` (not last): every break of
 the split run is reported as `BreakOut`. -/
-theorem C02_step {κ : Type} {env : Env κ} {inpS inpW : Bytes} {δ : Nat} {K : Nat → κ → κ → Prop}
-    (F : Frame inpS inpW δ) (hops : OpsSim env.ops inpS inpW δ K) {fs : FlagMap}
+theorem C02_step {κ : Type} {env : Env κ} {inpS inpW : Bytes} {δ : Nat} {K : Nat → κ → κ → Prop} {Loc : κ → Nat → Prop}
+    (F : Frame inpS inpW δ) (hops : OpsSim env.ops inpS inpW δ K Loc) {fs : FlagMap}
     (hwf : WfChunkWith env.tbl fs = true) {d skip : Nat} (eoi : Bool) {ms mw : M κ}
     (hb : BRel env.tbl fs inpW δ d skip ms mw) (hK : K d ms.x.sink mw.x.sink)
     (hil : ms.c.isLast = true → Closed inpS inpW δ) (heoi : eoi = false → ms.c.isLast = false) :
@@ -177,7 +178,7 @@ theorem C02_step {κ : Type} {env : Env κ} {inpS inpW : Bytes} {δ : Nat} {K : 
       stateFn env inpW mw0 = stateFn env inpW mw ∧ K d x0.sink mw0.x.sink ∧ mw0.x.sim = x0.sim ∧
       x0.prevConsumed = mw0.x.prevConsumed + δ ∧
       BreakOut env.tbl fs env.ops inpS inpW δ d x0 mw0 (stateFn env inpS ms)) :=
-  stateFn_sim F hops hwf eoi hb hK hil heoi
+  stateFn_sim F hops hwf eoi hb hK hloc hil heoi
 
 /-- outcome of a sequence of calls: the first result that is not `ok` -/
 def outcome : List CallRes → CallRes
